@@ -29,7 +29,7 @@ func init() {
 		Case:        c20Case,
 		MinDistinct: func(t string) int { return 3000 },
 		Floors: func(string) map[string]int64 {
-			return map[string]int64{"accepted_setexons": 3000, "rejected_setexons": 1000, "rejected_add": 1000, "rejected_add_spare_capacity": 300, "reverse_base_orientation": 500, "deep_chains": 5, "tilings_checked": 5000}
+			return map[string]int64{"accepted_setexons": 3000, "rejected_setexons": 1000, "rejected_add": 1000, "rejected_add_spare_capacity": 300, "reverse_base_orientation": 500, "base_orientation_stops_at_unoriented_ancestor": 300, "deep_chains": 5, "tilings_checked": 5000}
 		},
 		Assumptions: []string{
 			"orientations at every orientable level are Forward or Reverse (UTR accessors are documented to panic otherwise)",
@@ -135,6 +135,9 @@ func c20Case(r *obs.Run, i int) {
 	h.Chain = append(h.Chain, fmt.Sprintf("chr@%d", chr.start))
 	for d := 0; d < depth; d++ {
 		n := &c20node{fmt.Sprint("region", d), rng.Intn(2000) - 200, 1 << 30, pm(), loc}
+		if !deep && rng.Intn(6) == 0 {
+			n.ori = feat.NotOriented // an orientable type that reports no orientation: base orientation stops here
+		}
 		loc = n
 		feats = append(feats, n)
 		starts = append(starts, n.start)
@@ -147,6 +150,9 @@ func c20Case(r *obs.Run, i int) {
 		h.Chain = append(h.Chain, fmt.Sprintf("%d regions", depth))
 	}
 	g := &gene.Gene{ID: "g", Chrom: loc, Offset: rng.Intn(5000), Orient: pm()}
+	if rng.Intn(8) == 0 {
+		g.Orient = feat.NotOriented
+	}
 	feats = append(feats, g)
 	starts = append(starts, g.Offset)
 	oris = append(oris, g.Orient)
@@ -240,9 +246,20 @@ func c20Case(r *obs.Run, i int) {
 		}
 		r.Count("tilings_checked", 1)
 		// positions and orientations through the chain
+		// the base reference is the nearest ancestor that is not orientable (the chromosome) or reports
+		// NotOriented; the base orientation is the product of the orientations below it
+		stop := 0
+		for k, o := range oris[:len(oris)-1] { // oris[k] belongs to feats[k+1]; the transcript itself is always oriented
+			if o == feat.NotOriented {
+				stop = k + 1
+			}
+		}
 		prod := feat.Forward
-		for _, o := range oris {
+		for _, o := range oris[stop:] {
 			prod *= o
+		}
+		if stop > 0 {
+			r.Count("base_orientation_stops_at_unoriented_ancestor", 1)
 		}
 		e := ex[rng.Intn(len(ex))]
 		p := rng.Intn(e.Len())
@@ -255,11 +272,11 @@ func c20Case(r *obs.Run, i int) {
 			fail("position-compose", fmt.Sprintf("%s: BasePositionOf(exon@%d,%d)=%d want %d", when, e.Start(), p, bp, sum))
 		}
 		bo, oref := feat.BaseOrientationOf(e)
-		if bo != prod || oref != feat.Feature(chr) {
-			fail("orientation-compose", fmt.Sprintf("%s: BaseOrientationOf(exon)=%d want %d", when, bo, prod))
+		if bo != prod || oref != feats[stop] {
+			fail("orientation-compose", fmt.Sprintf("%s: BaseOrientationOf(exon)=%d want %d (reference at level %d, same as expected: %v)", when, bo, prod, stop, oref == feats[stop]))
 		}
-		if bo, _ := feat.BaseOrientationOf(t); bo != prod {
-			fail("orientation-compose", fmt.Sprintf("%s: BaseOrientationOf(transcript)=%d want %d", when, bo, prod))
+		if bo, tref := feat.BaseOrientationOf(t); bo != prod || tref != feats[stop] {
+			fail("orientation-compose", fmt.Sprintf("%s: BaseOrientationOf(transcript)=%d want %d (reference at level %d, same as expected: %v)", when, bo, prod, stop, tref == feats[stop]))
 		}
 		// relative to a random ancestor
 		j := rng.Intn(len(feats)) // feats[j] is the reference; levels j+1.. are summed
